@@ -159,7 +159,11 @@ impl Decoder for RawMapOperationDecoder {
                 frame.advance(TAG_SIZE);
                 let key_len = frame.get_u64() as usize;
 
-                if key_len + LEN_SIZE + TAG_SIZE > total_len {
+                if key_len
+                    .checked_add(LEN_SIZE + TAG_SIZE)
+                    .map(|n| n > total_len)
+                    .unwrap_or(true)
+                {
                     return Err(FrameIoError::BadFrame(InvalidFrame::InvalidHeader {
                         problem: Text::from(format!("{}{}", BAD_KEY_SIZE, key_len)),
                     }));
@@ -231,8 +235,9 @@ impl<K: RecognizerReadable, V: RecognizerReadable> Decoder for MapOperationDecod
                                 break Ok(None);
                             }
                             let key_len = header.get_u64() as usize;
-                            let value_len = if let Some(l) =
-                                total_len.checked_sub(key_len + LEN_SIZE + TAG_SIZE)
+                            let value_len = if let Some(l) = key_len
+                                .checked_add(LEN_SIZE + TAG_SIZE)
+                                .and_then(|n| total_len.checked_sub(n))
                             {
                                 l
                             } else {
